@@ -355,6 +355,13 @@ func mcpConfine(inb []byte) (any, error) {
 			args["path"] = foreignNew
 		case "nonstring":
 			args["path"] = 42
+		case "casefold":
+			// a different file on a case-sensitive file system: same spelling up to letter case
+			args["path"] = filepath.Join(dir, "hookaidofile")
+		case "suffix":
+			args["path"] = cfgPath + ".bak"
+		case "prefixdir":
+			args["path"] = filepath.Join(filepath.Dir(dir), filepath.Base(dir)+"x", "Hookaidofile")
 		}
 		if c.Tool == "config_apply" {
 			args["content"] = c.Content
